@@ -15,7 +15,10 @@ ASSUME = [
     "(floating reps, or equal units)",
     "QuantityPoint units with origins are exercised by a directed probe (finding F7, fixed) and by C09/C10",
 ]
-CT = {"i32": "int32_t", "i64": "int64_t", "f32": "float", "f64": "double", "u8": "uint8_t", "i16": "int16_t"}
+CT = {"i8": "int8_t", "u8": "uint8_t", "i16": "int16_t", "u16": "uint16_t", "i32": "int32_t", "u32": "uint32_t", "i64": "int64_t", "u64": "uint64_t",
+      "f32": "float", "f64": "double", "f80": "long double"}
+ALL_INT = ["i8", "u8", "i16", "u16", "i32", "u32", "i64", "u64"]
+ALL_FLT = ["f32", "f64", "f80"]
 
 PRELUDE = '''#include <cstdint>
 #include <type_traits>
@@ -111,6 +114,7 @@ def main(tier, seed):
     n_neg = 240 if tier == "quick" else 3000
     n_pos = 100 if tier == "quick" else 800
     neg_cases, pos_cases, trait_cases = [], [], []
+    rep_grid, int_grid = [], []
     near = [(("atom", "Meters"), ("pow", ("atom", "Meters"), 2)), (("atom", "Hertz"), ("div", ("atom", "Radians"), ("atom", "Seconds"))),
             (("atom", "Seconds"), ("pow", ("atom", "Seconds"), -1)), (("atom", "Joules"), ("atom", "Newtons")),
             (("atom", "Radians"), ("atom", "Unos")), (("atom", "Meters"), ("atom", "Liters")), (("atom", "Bits"), ("atom", "Unos"))]
@@ -159,7 +163,17 @@ def main(tier, seed):
         if op in ("inverseAs", "inverseIn"):
             # mismatch for inverse: target·source not dimensionless, i.e. dim(U1) != dim(U2) again (target = 1/U1)
             pass
-        r1, r2 = (("i32", "i32") if need == "int" else (rng.choice(["f64", "f32", "i32", "i64", "f64"]), rng.choice(["f64", "i32", "f32", "u8", "i16"])))
+        # rejection must not depend on the reps: every rep (pair) of the grid is used before any repeats
+        if need == "int":
+            if not int_grid:
+                int_grid.extend(ALL_INT)
+                rng.shuffle(int_grid)
+            r1 = r2 = int_grid.pop()
+        else:
+            if not rep_grid:
+                rep_grid.extend((a, b) for a in ALL_INT + ALL_FLT for b in ALL_INT + ALL_FLT)
+                rng.shuffle(rep_grid)
+            r1, r2 = rep_grid.pop()
         neg_cases.append((op, u1, u2, r1, r2))
     while len(pos_cases) < n_pos:
         op = opnames[len(pos_cases) % len(opnames)]
@@ -184,7 +198,7 @@ def main(tier, seed):
         u1, u2 = gen_unit(), gen_unit()
         if rng.random() < 0.3:
             u1 = ("scale", u2, rng.choice(uexpr.SCALES[:6]))
-        trait_cases.append((u1, u2, rng.choice(["f64", "i32", "f32", "i64"]), rng.choice(["f64", "i32", "u8"])))
+        trait_cases.append((u1, u2, rng.choice(ALL_INT + ALL_FLT), rng.choice(ALL_INT + ALL_FLT)))
     # mismatched dimensions with EQUAL magnitudes and integral reps (m vs s, km vs ks, N vs J): the scale factor between them is
     # Magnitude<>, the one value for which the policy has an integer-promotion carve-out; the dimension guard must still say no
     by_mag = {}
